@@ -887,6 +887,9 @@ func listQuery(op *Op, marker string, hasMarker bool, token string) url.Values {
 		q.Set("list-type", "2")
 		if token != "" {
 			q.Set("continuation-token", token)
+			if hasMarker && op.Sticky {
+				q.Set("start-after", marker)
+			}
 		} else if hasMarker {
 			q.Set("start-after", marker)
 		}
